@@ -114,8 +114,10 @@ def run(prop, tier_, cfg, sample=None, jobs=12, bind_budget=False):
     from lib.project import lookup_conformance
     rc_cases = list(cases)       # resolve / resolve_nofollow / open_subpath / readlink, with and without NO_SYMLINKS
     rnd.shuffle(rc_cases)
-    tcases = [dict(id="conf|%d" % i, tree=[node_to_pv(n) for n in trees[c["tree"]]["nodes"]], feat={"openat2": False}, trace=True, raw=False,
+    # three of four on the emulated backend (the step machine), one of four on the openat2 backend (K_Openat2)
+    tcases = [dict(id="conf|%d" % i, tree=[node_to_pv(n) for n in trees[c["tree"]]["nodes"]], feat={"openat2": i % 4 == 3}, trace=True, raw=False,
                    calls=[op_to_calls(c["op"], join_path(c["path"]))[0]]) for i, c in enumerate(rc_cases[:400 if sample else 4000])]
+    tcases.sort(key=lambda c: c["feat"]["openat2"])
     tres = run_pv(tcases, jobs=jobs, tag=prop + "c")
     conf = lookup_conformance(tcases, tres)
     stats["conf_validated"], stats["conf_accepted"], stats["conf_drift"] = conf["validated"], conf["accepted"], len(conf["drift"])
